@@ -79,10 +79,12 @@ Section Account.
   Lemma try_opts_acct opts : forall ex a u a' b ex', Reads a u ->
     try_opts D opts ex a = Some (a', b, ex') -> exists u', Reads a' u' /\ Acct u b u'.
   Proof.
-    induction opts as [|o opts IH]; intros ex a u a' b ex' Hr; cbn [try_opts]; [discriminate|].
-    destruct (mem_nat o ex); [now apply IH|].
-    destruct (m_opt D o a false) as [[[m ro] bs]|] eqn:E; [|now apply IH].
-    intros [= <- <- <-]. now destruct (m_opt_acct o a u m ro bs Hr E) as [_ H].
+    intros ex a u a' b ex' Hr. unfold try_opts.
+    destruct (try_consume D opts ex a) as [[m bs]|] eqn:Ec.
+    - intros [= <- <- <-]. destruct (try_consume_spec D opts ex a m bs Ec) as (o & ro & _ & _ & _ & E).
+      now destruct (m_opt_acct o a u m ro bs Hr E) as [_ H].
+    - destruct (try_env D opts ex a) as [o|]; [|discriminate]. intros [= <- <- <-].
+      exists u. split; [assumption | apply acct_refl].
   Qed.
 
   Lemma try_acct opts ex a u a' b ex' : Reads a u ->
